@@ -1070,6 +1070,8 @@ func runC04(c *Ctx) {
 		c.rule("R-PATH-COMPLETE", 1, "the search that builds a cursor's path records every node it visits")
 		sm.rulePathComplete(c)
 	}
+	ruleOkForward(c, "omap", "stree")
+	ruleIterSiblings(c)
 	if seek := P.Func("omap", "Iter", "Seek"); seek != nil {
 		cF := P.Field("omap", "Iter", "c")
 		okS := false
